@@ -73,7 +73,7 @@ METHODS = ["euler", "rk4", "rk38", "rk23", "rk45"]
 FIXED = ("euler", "rk4", "rk38")
 ADAPTIVE = ("rk23", "rk45")
 CALL_BUDGET = 8000      # right-hand-side calls per solve (largest seen on the unchanged tree: 724); more = 'does not terminate'
-STUCK_CALLS = 1000      # consecutive calls without any progress in time (largest seen: 51) = 'does not terminate'
+STUCK_CALLS = 300       # consecutive calls at exactly the same time (largest seen: 13, a zero-length step) = step size 0, 'does not terminate'
 SMALL_BUDGET = 2000      # scripted / single-step solves (largest seen: 65)
 
 # ------------------------------------------------------------------------------------------------ literature tableaus
@@ -208,13 +208,12 @@ class CallBudget(Exception):
 class Spy:
     """records every call of the right-hand side: (t as float, flattened y, flattened returned slope)"""
 
-    def __init__(self, rule, budget=CALL_BUDGET, direction=1.0):
+    def __init__(self, rule, budget=CALL_BUDGET):
         self.rule = rule
         self.log = []
         self.n = 0
         self.budget = budget
-        self.direction = direction
-        self.tmax = -float("inf")
+        self.tlast = None
         self.since_progress = 0
         self.max_since_progress = 0
         self.arg_kinds = set()
@@ -242,8 +241,8 @@ class Spy:
                 oflat = out.detach().reshape(-1).clone()
             tf = float(t)
             spy.log.append((tf, yflat, oflat))
-            if spy.direction * tf > spy.tmax:
-                spy.tmax = spy.direction * tf
+            if tf != spy.tlast:
+                spy.tlast = tf
                 spy.since_progress = 0
             else:
                 spy.since_progress += 1
@@ -503,7 +502,7 @@ def run_solver(obs, key, rule, ts, y0, method, params=(), opts=None, budget=CALL
     """calls the real solve_ivp with a recording right-hand side; returns (spy, result or None)"""
     from xitorch.integrate import solve_ivp
     tl = [float(x) for x in ts]
-    spy = Spy(rule, budget, direction=-1.0 if tl[-1] < tl[0] else 1.0)
+    spy = Spy(rule, budget)
     kw = dict(opts or {})
     try:
         with WarnLog():
@@ -511,7 +510,7 @@ def run_solver(obs, key, rule, ts, y0, method, params=(), opts=None, budget=CALL
                 yt = solve_ivp(spy.fcn(), ts, y0, params=tuple(params), method=method, **kw)
     except CallBudget:
         obs.check(False, "no_termination:%s" % key,
-                  "solve_ivp did not return: %d right-hand-side calls, the last %d without progress in time (limits %d / %d)" % (
+                  "solve_ivp did not return: %d right-hand-side calls, the last %d at the same time (limits %d / %d)" % (
                       spy.n, spy.since_progress, budget, STUCK_CALLS), ts=tl[:10])
         return spy, None
     except Exception as e:  # an exception on an input the property covers
@@ -520,7 +519,7 @@ def run_solver(obs, key, rule, ts, y0, method, params=(), opts=None, budget=CALL
     obs.count("rhs_calls", spy.n)
     obs.count("solves")
     _track(obs, "max_calls_per_solve", spy.n)
-    _track(obs, "max_calls_without_progress", spy.max_since_progress)
+    _track(obs, "max_calls_at_same_time", spy.max_since_progress)
     return spy, yt
 
 
